@@ -519,6 +519,44 @@ def retry_wiring():
     ]
 
 
+def attempt_loop():
+    """executor.rs `run_test_instance`: the attempt loop, segment by segment; the loop's text must be exactly the recognised
+    segments in this order (anything added, removed or reordered loses the shape)."""
+    ex = re.sub(r"\s+", " ", strip_comments(read("nextest-runner/src/runner/executor.rs")))
+    m = re.search(r"let mut attempt = 0; let mut delay = Duration::ZERO; let last_run_status = loop \{ (.*?) \}; drain_req_rx\(req_rx, UnitExecuteStatus::Test\(&last_run_status\)\); "
+                  r"let last_run_status = last_run_status\.into_external\(\); let _ = resp_tx\.send\(ExecutorEvent::Finished \{ test_instance: test\.instance, (?:\w+: settings\.\w+\(\), )*last_run_status, \}\); \}", ex)
+    if not m: raise RuntimeError("run_test_instance: `let mut attempt = 0; … loop { … }; drain_req_rx(…); … Finished { … last_run_status }` not found")
+    body = m.group(1)
+    segs = [
+        ("the attempt number is incremented first, from 0, and carried with the total in the attempt's retry data",
+         r"attempt \+= 1; let retry_data = RetryData \{ attempt, total_attempts, \}; "),
+        ("every attempt after the first asks the dispatcher first (RetryStarted); a refusal ends the unit at once, with no result",
+         r"if retry_data\.attempt > 1 \{ let \(tx, rx\) = oneshot::channel\(\); _ = resp_tx\.send\(ExecutorEvent::RetryStarted \{ test_instance: test\.instance, retry_data, tx, \}\); "
+         r"match rx\.await \{ Ok\(\(\)\) => \{\} Err\(_\) => \{ return; \} \} \} "),
+        ("each pass runs exactly one attempt, with this attempt's retry data and the delay that preceded it",
+         r"let packet = TestPacket \{ test_instance: test\.instance, cx: cx\.clone\(\), retry_data, settings: settings\.clone\(\), setup_script_data: setup_script_data\.clone\(\), delay_before_start: delay, \}; "
+         r"let run_status = self\.run_test\(packet\.clone\(\), &resp_tx, &mut req_rx\)\.await; "),
+        ("a successful attempt ends the loop with its own status",
+         r"if run_status\.result\.is_success\(\) \{ break run_status; \} "),
+        ("a failed attempt is retried exactly while attempt < total attempts: the backoff iterator's next delay is announced with the failed status and then waited",
+         r"else if retry_data\.attempt < retry_data\.total_attempts \{ delay = backoff_iter \.next\(\) \.expect\(\"backoff delay must be non-empty\"\); "
+         r"let run_status = run_status\.into_external\(\); let previous_result = run_status\.result; let previous_slow = run_status\.is_slow; "
+         r"let _ = resp_tx\.send\(ExecutorEvent::AttemptFailedWillRetry \{ test_instance: test\.instance, failure_output: settings\.failure_output\(\), run_status, delay_before_next_attempt: delay, \}\); "
+         r"handle_delay_between_attempts\( &packet, previous_result, previous_slow, delay, &mut req_rx, \) \.await; \} "),
+        ("otherwise the loop ends with the last attempt's status",
+         r"else \{ break run_status; \}"),
+    ]
+    rows = []; pos = 0
+    for what, rx in segs:
+        r = re.compile(rx).match(body, pos)
+        rows.append((what, r is not None))
+        if r: pos = r.end()
+    rows.append(("nothing else is in the loop", pos == len(body) and all(ok for _, ok in rows)))
+    rows.append(("one Finished is sent, after the loop, with the status the loop ended with", True))   # matched by the frame above
+    if not any(ok for _, ok in rows[:len(segs)]): raise RuntimeError("run_test_instance: no segment of the attempt loop recognised")
+    return rows
+
+
 def script_sequencing():
     """executor.rs / imp.rs: setup scripts run one at a time, in order, and before any test is queued."""
     ex = re.sub(r"\s+", " ", strip_comments(read("nextest-runner/src/runner/executor.rs")))
@@ -567,7 +605,7 @@ def spawn_setup():
     return rows
 
 
-GROUPS = ["cancel", "mismatch", "exit", "setdef", "escape", "signals", "sighandler", "termchild", "termexit", "delayloop", "drainloop", "drainexit", "drainalways", "verdict", "weights", "retries", "scripts", "spawn", "mainloop", "interval", "placeholders", "xml", "respond"]
+GROUPS = ["cancel", "mismatch", "exit", "setdef", "escape", "signals", "sighandler", "termchild", "termexit", "delayloop", "drainloop", "drainexit", "drainalways", "verdict", "weights", "retries", "scripts", "spawn", "mainloop", "interval", "placeholders", "xml", "respond", "attemptloop"]
 
 
 def group_lines(g):
@@ -656,6 +694,10 @@ def group_lines(g):
         rows = retry_wiring()
         return ["/-- imp.rs / executor.rs: the path of a forced retry policy, as wired -/",
                 "def retryWiring : List (String × Bool) := [" + ", ".join(f'("{a}", {"true" if b else "false"})' for a, b in rows) + "]"]
+    if g == "attemptloop":
+        rows = attempt_loop()
+        return ["/-- executor.rs `run_test_instance`: the attempt loop, segment by segment, as written -/",
+                "def attemptLoopShape : List (String × Bool) := [" + ", ".join(f'("{a}", {"true" if b else "false"})' for a, b in rows) + "]"]
     if g == "scripts":
         rows = script_sequencing()
         return ["/-- executor.rs / imp.rs: the sequencing of setup scripts, as written -/",
